@@ -1,8 +1,20 @@
 #!/bin/bash
-# usage: seedtest.sh <patch.diff> <property> [check args...]   -- applies the patch to /repo, runs the check, reverts
-patch="$1"; prop="$2"; shift 2
-cd /repo && git apply "$patch" || { echo "patch does not apply"; exit 2; }
-cd /verif && ./check "$prop" "$@" 2>&1 | grep -E "VIOLATION|KNOWN|UNCONF|BROKEN|tier=" | cut -c1-300 | head -8
+# usage: seedtest.sh <worktree-with-change-applied | patch.diff> <property> [gosym args...]
+# Runs the check of <property> against a seeded change. With a worktree the change is checked in place
+# (-repo/-out: /repo and the committed evidence are not touched); with a patch file it is applied to /repo,
+# checked, and reverted straight afterwards.
+src="$1"; prop="$2"; shift 2
+cd /verif
+export GOFLAGS=-mod=mod GOPROXY=off
+if [ -d "$src" ]; then
+  out=$(mktemp -d /tmp/seedout.XXXX)
+  ./check "$prop" -repo "$src" -out "$out" "$@" 2>&1 | grep -E "VIOLATION|KNOWN|UNCONF|BROKEN|TRANSLATOR|INCONCL|tier=" | cut -c1-300 | head -12
+  rc=${PIPESTATUS[0]}
+  echo "(evidence and replays in $out)"
+  exit $rc
+fi
+cd /repo && git apply "$src" || { echo "patch does not apply"; exit 2; }
+cd /verif && ./check "$prop" "$@" 2>&1 | grep -E "VIOLATION|KNOWN|UNCONF|BROKEN|TRANSLATOR|INCONCL|tier=" | cut -c1-300 | head -12
 rc=${PIPESTATUS[0]}
-git -C /repo checkout -- . 
+git -C /repo checkout -- .
 exit $rc
